@@ -127,10 +127,13 @@ fn vk_c20_winning_capture() {
 //@@stubs-tables
 fn vk_c20_canary_see() {
     let c = any_capture();
-    kani::assume(c.promo.is_none() && val(c.captured.kind) < val(c.mover.kind));
-    // bound the exchange so that the loop fits the unwinding bound of the canary
-    kani::assume(c.game.board.occupancy().count() <= 5);
-    assert!(see(&c.game, c.mv, Eval(0))); // must FAIL: e.g. QxP defended by a pawn
+    let board = &c.game.board;
+    let mut occ = board.occupancy();
+    occ ^= c.mv.src().bb();
+    occ |= c.mv.dst().bb();
+    let defenders = movegen::all_attackers_of(board, c.mv.dst(), occ) & occ & board.occupancy_for(c.game.player.other());
+    kani::assume(defenders.is_empty());
+    assert!(!see(&c.game, c.mv, Eval(0))); // must FAIL: an undefended capture is favourable
 }
 
 // ---------------------------------------------------------------------------------------------------------------
